@@ -10,7 +10,7 @@ by a small recursive-descent parser - formatting, renaming of parameters/locals 
                      sequence over index_ / skipZeroIndices()), index()/size() (shape only)
   PackEntries        the whole body: branch condition, `noIndices`, loop bounds, loop conditions incl. the
                      `if(hasSpaceForItems(..)) .. else break` test, the statements of the loop bodies in their order,
-                     the returned count
+                     the returned count (helper member functions are inlined)
   UnpackEntries      the same (fixed and variable branch, the arguments of every scatter call)
   UnpackSizeEntries  noIndices, source/destination/length of the std::copy, the increment
   SetupSendRequest   reset, the PackEntries call, the skip loop (condition, body), the guard and the count of MPI_Issend
@@ -27,6 +27,31 @@ Props/C06.lean proves, for all inputs, that the generated definitions equal the 
 and termination theorems are about (`src_*` theorems) - so those theorems are re-checked against what the source says now.
 Anything outside the grammar (unknown statement, unknown identifier, other loop shape) raises TranslateError = a broken
 obligation; check.py then searches for a failing input.
+
+Tolerance (round five; every rule is a semantic identity of the C++ subset, nothing is guessed):
+  * statements that follow an `if` are continued into both arms: guard clause = if/else, common tail = duplicated tail;
+    `...; if(c) return; S;` at the end of a void functor = `...; if(!c) S;`; `if(c) return a; return b;` in an accessor =
+    `return c ? a : b;`
+  * loops: `while(c) if(d) S else break` = `while(c && d) S`; counted `for` ascending or descending by one with an unused
+    counter and a loop-invariant bound (literal / unmodified local / parameter) = trip count; every other
+    `for(init; c; step) body` = `init; while(c) { body; step; }`.  Loop conditions and bodies are emitted as local lambdas
+    (closures over the enclosing function's locals); Proofs/C06Tie.lean replaces them by canonical ones with
+    `loopG_congr`, so their spelling (order of independent statements, hoisted values, `a+b` vs `b+a`) does not matter
+  * an integral local that is never modified afterwards (assignment, op=, ++/--, address taken all count as modification)
+    is a Lean `let` with the value of its initialiser at the point of declaration (also inside loop bodies); shadowing and
+    reference locals are errors
+  * a call `helper(a, b, c)` of another member function of the same functor with plain names as arguments is inlined
+    (the helper must not assign to its parameters)
+  * checkAndContinue: the loop over the completed requests may be an iterator loop or an index loop (bound `indices.size()`
+    or a local initialised with it, never the counter the body decrements); `*it` / `indices[k]` and `it-indices.begin()` /
+    `k` get canonical names, references to trackers[i] / buffers[i] / requests2[i] / statuses[k] and unmodified copies of i / k
+    are substituted before the shape checks
+  * setupInterfaceTrackers: iterator loop or range-for over `*interface_`, `x->second` = `x.second`, typedef/using for the
+    chooser, `const&` locals for the two index lists, unmodified locals before the loop
+  * communicateFixedSize: the empty-tracker reduction as iterator / index / range-for loop or `c -= std::count_if(.., empty)`
+  * InterfaceTracker accessors may be written through each other (emitted in dependency order); `increment(e)` inside
+    moveToNextIndex; `std::copy_n` for `std::copy`; `sizes_.empty()`; `this->`; functional / static casts between integral
+    types (values are read as naturals without wrap-around)
 """
 import os
 import re
@@ -626,7 +651,6 @@ def _message_buffer(src, out):
 
 def _tracker_env():
     return Env({"index_": ("index", "nat"), "interface_.size()": ("ifaceSize", "nat"),
-                "interface_.empty()": ("(decide (ifaceSize = 0))", "bool"),
                 "sizes_.empty()": ("(decide (sizesSize = 0))", "bool"),
                 "sizes_.size()": ("sizesSize", "nat"), "size()": ("sizeHere", "nat"),
                 "finished()": ("(trackerFinished index ifaceSize)", "bool"),
@@ -654,7 +678,6 @@ def _interface_tracker(src, out):
                 e.atoms.pop(a, None)
         if cname == "offset":
             del e.atoms["interface_.size()"]
-            del e.atoms["interface_.empty()"]
             for a in ("finished()", "indicesLeft()", "empty()"):
                 e.atoms.pop(a, None)
         r = _leaf(body, e, "InterfaceTracker::" + cname)
